@@ -6,7 +6,7 @@ from harness.props import c04
 
 ID = "C20"
 ENTRY = "ThreadPoolExecutor.map(query, ...) vs [query(...) for ...]"
-LEVEL = "other"
+LEVEL = "proof"
 RULE = ("2..16 threads issuing term / phrase / docfreq / score / slicing queries (and one edismax) against a shared "
         "base array and shared views, released together from a barrier, thread switch interval down to 1 microsecond, "
         "cache_gt_than in {0,1,25} so that caches are hit and missed; each round's concurrent results are compared with "
@@ -17,7 +17,7 @@ TRUSTED = B.TRUSTED + ["real preemption points, dict atomicity under the GIL and
                        "the model's schedule is a seeded permutation of atomic actions, unrelated to the real schedule"]
 ASSUMPTIONS = ["each modelled action is atomic (dict get/set under the GIL)"]
 EXPLANATION = ("interleaving model (Conc/Conc.v): queries as programs of atomic actions on the shared state of Purity.v; "
-               "theorem: every schedule yields the serial results (Props/C20.v).")
+               "theorems in Props/C20.v: every schedule yields the history-free answers, hence the serial results (two postings premises explicit).")
 
 
 def gen(rng, tier):
